@@ -19,6 +19,7 @@ FIXED = [
  (["C18", "C04", "C20"], "fix: numbers beyond the int64", "number-render-collision", "1e300, 1e301, +Inf rendered / keyed as -9223372036854775808; [1e300:1, 1e301:2] had one entry"),
  (["C18"], "fix: equal instants are the same value", "render-disagrees-with-equality", "the same instant supplied in two zones (or with a monotonic reading) was == but rendered differently, was another map key and another set element"),
  (["C18"], "fix: optionals render their payload type", "render-disagrees-with-equality", "Just({a:1,b:\"x\"}) and Just({b:\"x\",a:1}) rendered Just#{a: num, b: str}(…) and Just#{b: str, a: num}(…): equal values, different text, different set elements"),
+ (["C18", "C13"], "fix: a value reached through two paths", "render-shared-structure", "[xs, xs] with an environment variable xs rendered \"[[1, 2], recursive-val list[num]@0x…]\" (run-dependent address) although it == [[1,2],[1,2]]"),
  (["C13"], "fix: string() renders map", "render-depends-on-map-seed", "string([\"a\":1,\"b\":2,\"c\":3]) followed Go map iteration order"),
  (["C02"], "fix: negative list indices", "internal-fault", "get([1,2],-1,0) and [1,2][-1] (also NaN / huge indices) died with a Go runtime index panic"),
  (["C03"], "fix: the VM builds map literals", "backend-value-mismatch", "[\"a\":1,\"a\":2] gave [\"a\":1] on the VM and [\"a\":2] on closure / interp"),
